@@ -46,7 +46,18 @@ class LanguageClassesFactory:
         """
         Generate JSON Schema for asset types in the language specification.
         """
-        for asset in self.lang_graph.assets:
+        # Define every asset after its super asset. python_jsonschema_objects
+        # resolves a reference to a class that is not built yet by recursing
+        # into it, a long inheritance chain declared leaf first would exceed
+        # the recursion limit.
+        def inheritance_depth(asset) -> int:
+            depth = 0
+            while asset.super_assets:
+                asset = asset.super_assets[0]
+                depth += 1
+            return depth
+
+        for asset in sorted(self.lang_graph.assets, key=inheritance_depth):
             logger.debug('Creating %s asset JSON schema entry.', asset.name)
             asset_json_entry = {
                 'title': asset.name,
